@@ -118,7 +118,8 @@ func nlAfter(stmts []Node, comments map[Node]string) map[int]bool {
 			indices[beforeFuncIdx] = true
 		case i+2 < length && accums[i+1].stmtType == "comment" && accums[i+2].stmtType == "func":
 			// add NL before comments of func decl (after stmt or other func decl)
-			indices[accum.idx] = true
+			beforeCommentIdx := accums[i+1].idx - 1
+			indices[beforeCommentIdx] = true
 		}
 	}
 	return indices
